@@ -3,29 +3,42 @@ import os, sys, json
 from vlib import *
 
 PROP = 'C11'
+IMPORTS = 'Base.F32 Model.Ops Model.Expr Corr.C11'
 
-def run_harness(v, mode, n, seed):
-    rc, out = sh([harness_bin('c11'), mode, str(n)], timeout=1200, env={'VERIF_SEED': str(seed)})
+def run_harness(v, args, seed):
+    rc, out = sh([harness_bin('c11')] + [str(a) for a in args], timeout=1200, env={'VERIF_SEED': str(seed)})
     lines = [l for l in out.splitlines() if '\t' in l]
     if rc != 0:
-        v.obligation('harness c11 %s ran' % mode, False, out[-800:])
+        v.obligation('harness c11 %s ran' % args[0], False, out[-800:])
     return lines
 
 def main(argv):
     tier, seed, replay = tier_and_seed(argv)
     v = Verdict(PROP, tier, seed)
-    coq_ok, h_ok, unrec = standard_proof_steps(
-        v, PROP, ['optable'],
-        ['theories/Props/C11.vo', 'theories/Corr/C11.vo'], ['c11', 'truth-cli'])
+    proofs_ok, h_ok, unrec = standard_proof_steps(
+        v, PROP, ['optable'], ['theories/Props/C11.vo'], ['c11', 'truth-cli'],
+        corr_targets=['theories/Corr/C11.vo'])
 
     cases, texts, kinds = [], [], []
     oracle_fail = []
     stats = ''
     if h_ok:
-        ntrees = 400 if tier == 'quick' else 12000
-        extra = 8 if tier == 'quick' else 40
-        lines = run_harness(v, 'grid', extra, seed) + run_harness(v, 'trees', ntrees, seed)
-        # corpus of earlier minimised failures runs first
+        lines = []
+        # corpus first: earlier minimised failures and the seed reproductions
+        corpus = sorted(glob.glob(os.path.join(VERIF, 'corpus', 'C11', '*.spec')))
+        if replay:
+            r = json.load(open(replay))
+            os.makedirs(os.path.join(WORK, 'C11'), exist_ok=True)
+            if r.get('source_text'):
+                p = os.path.join(WORK, 'C11', 'replay.spec'); open(p, 'w').write(r['source_text']); corpus = [p]
+            if r.get('case'):
+                lines.append('%s\t%s\t%s' % (r.get('kind', 'BIN'), r['case'], r.get('source', '')))
+        for f in corpus:
+            lines += run_harness(v, ['text', f], seed)
+        if not replay:
+            ntrees = 400 if tier == 'quick' else 12000
+            extra = 4 if tier == 'quick' else 40
+            lines += run_harness(v, ['grid', extra] + (['quick'] if tier == 'quick' else []), seed) + run_harness(v, ['trees', ntrees], seed)
         for l in lines:
             parts = l.split('\t')
             if parts[0] == 'ORACLE-FAIL': oracle_fail.append(parts[1:])
@@ -35,41 +48,45 @@ def main(argv):
     hist = {}
     for k in kinds: hist[k] = hist.get(k, 0) + 1
 
-    # impl-level oracle failures are violations with a concrete input
+    # (O) implementation-level oracle failures: violations with a concrete input
     seen = set()
     for f in oracle_fail:
-        what = f[0]
-        text = f[-1]
+        what, text = f[0], f[-1]
         cls = 'c11-oracle:' + what.split(':')[0]
-        key = (cls, text)
-        if key in seen: continue
-        seen.add(key)
+        if (cls, text) in seen: continue
+        seen.add((cls, text))
         if len(seen) > 5: break
-        v.violation('implementation-level oracle: ' + what, {'class': cls, 'source': text, 'detail': f})
+        v.violation('implementation-level oracle: ' + what, {'class': cls, 'source_text': text.replace('; ', ';\n'), 'detail': f})
 
-    mism, errs = ([], [])
-    if coq_ok and cases:
-        mism, errs = coq_eval_cases(PROP, 'Base.F32 Model.Ops Model.Expr Corr.C11', 'c11case', cases, shard=(700 if tier == 'quick' else 1500))
+    shard = 700 if tier == 'quick' else 1500
+    if v.corr_ok and cases:
+        # (X) model vs implementation
+        mism, errs = coq_eval_cases(PROP, IMPORTS, 'c11case', cases, shard=shard)
         v.obligation('correspondence: model = implementation on %d cases (vm_compute inside Coq)' % len(cases), not mism and not errs,
                      ('%d mismatches; ' % len(mism)) + '; '.join(errs)[:600] if (mism or errs) else '')
+        # (O') implementation vs the independent operator specification: yields the operand pair when the table theorem breaks
+        smism, serrs = coq_eval_cases(PROP + 's', IMPORTS, 'c11case', [c for c, k in zip(cases, kinds) if k in ('BIN', 'UN')],
+                                      check_fn='spec_mismatches', shard=shard * 2)
+        opcases = [c for c, k in zip(cases, kinds) if k in ('BIN', 'UN')]
+        v.obligation('oracle: implementation operators = Spec.MachineOps on %d operand tuples' % len(opcases), not smism and not serrs,
+                     ('%d mismatches; ' % len(smism)) + '; '.join(serrs)[:600] if (smism or serrs) else '')
+        for i in smism[:3]:
+            v.violation('compile-time operator result differs from the documented machine semantics',
+                        {'class': 'c11-spec', 'kind': 'BIN', 'case': opcases[i]})
         for i in mism[:5]:
-            # a correspondence mismatch: the case itself is the candidate failing input. For SIMP/EVAL
-            # cases the impl-level oracle has already run on it (above); for operator cases compare with
-            # the independent spec is part of the theorem, so the mismatch means the code's operator
-            # differs from the proved table semantics.
+            # the case is the candidate failing input; SIMP/EVAL cases were already through the AstVm oracle,
+            # operator cases through the spec oracle. If neither fired, the model no longer describes the code.
             v.violation('model/implementation disagreement on a %s case' % kinds[i],
-                        {'class': 'c11-corr:' + kinds[i], 'case': cases[i], 'source': texts[i],
+                        {'class': 'c11-corr:' + kinds[i], 'kind': kinds[i], 'case': cases[i], 'source': texts[i],
+                         'source_text': texts[i].replace('; ', ';\n') if kinds[i] in ('SIMP', 'EVAL') else None,
                          'broken': 'correspondence Corr.C11.model_of'},
-                        no_failing_input=(kinds[i] in ('SIMP',) and not oracle_fail))
-    if not coq_ok:
-        # a proof obligation no longer checks: search for a failing input with the oracle (already run above)
-        if not v.violations:
-            v.violation('proof obligation does not check: %s' % json.dumps(v.coq_error)[:400],
-                        {'class': 'c11-proof', 'broken': v.coq_error}, no_failing_input=(not oracle_fail))
-    elif unrec:
-        if not v.violations:
-            v.violation('translator no longer recognises the operator table: %s' % unrec[:3],
-                        {'class': 'c11-tie1', 'broken': unrec}, no_failing_input=True)
+                        no_failing_input=(not oracle_fail and not smism))
+    if (not proofs_ok or not v.corr_ok) and not v.violations:
+        v.violation('proof obligation does not check: %s' % json.dumps(v.coq_error)[:400],
+                    {'class': 'c11-proof', 'broken': v.coq_error}, no_failing_input=True)
+    elif unrec and not v.violations:
+        v.violation('translator no longer recognises the operator table: %s' % unrec[:3],
+                    {'class': 'c11-tie1', 'broken': unrec}, no_failing_input=True)
     elif any(not o[1] for o in v.obligations) and not v.violations:
         bad = [o for o in v.obligations if not o[1]]
         v.violation('obligation failed: %s' % bad[0][0], {'class': 'c11-obligation', 'broken': [list(b) for b in bad]}, no_failing_input=True)
@@ -86,7 +103,7 @@ def main(argv):
     })
     return v.finish(
         level='proof',
-        checker_cmd='cd coq && make theories/Props/C11.vo theories/Corr/C11.vo && coqc audit (Print Assumptions) ; harness/target/debug/c11 grid|trees ; coqc work/cases_C11/*.v',
+        checker_cmd='cd coq && make theories/Corr/C11.vo theories/Props/C11.vo ; coqc work/audit_C11.v (Print Assumptions) ; harness/target/debug/c11 grid|trees|text ; coqc work/cases_C11/*.v',
         trusted_base=['Flocq 4.1.0 binary32 (the model of f32 arithmetic); sin/cos/tan/asin/acos/atan are an uninterpreted Section variable',
                       'modelled, not verified: Model/Ops.v, Model/Expr.v are hand-written restatements of const_simplify.rs, consts.rs (DFS evaluator, without its cache), vm.rs (AstVm::eval)'],
         assumptions=['NaN payloads are identified (one NaN class)', 'call expressions, offsetof/timeof and ++/-- are opaque to the expression model'])
